@@ -395,12 +395,17 @@ def wfType : Json → Bool
   | .str t => primitiveNames.contains t
   | .arr ts => (ts.all fun t => match t with
       | .str t => primitiveNames.contains t
-      | _ => false) && allDistinct ts
+      | _ => false) && allDistinct ts      -- metaschema: `uniqueItems: true`
   | _ => false
+
+/-- metaschema: a `type` array has `minItems: 1` -/
+def typeNonEmpty : Json → Bool
+  | .arr [] => false
+  | _ => true
 
 /-- keywords whose value is not a schema -/
 def wfSimple (k : String) (v : Json) : Bool :=
-  if k == "type" then wfType v
+  if k == "type" then wfType v && typeNonEmpty v
   else if k == "enum" then (match v with
     | .arr _ => true
     | _ => false)
